@@ -54,7 +54,8 @@ where
         let a_base2k: usize = a.base2k().as_usize();
         let res_base2k: usize = res.base2k().as_usize();
         let cnv_offset = a.size().max(b_size);
-        let res_size: usize = (res.size() * res_base2k).div_ceil(a_base2k);
+        // the accumulator holds up to a.size() + b_size limbs (cnv_offset_hi = 0)
+        let res_size: usize = ((res.size() * res_base2k).div_ceil(a_base2k)).max(a.size() + b_size);
         let lvl_0: usize = self.bytes_of_vec_znx_big(1, res_size);
         let lvl_1_cnv: usize = self.cnv_by_const_apply_tmp_bytes(res_size, cnv_offset, a.size(), b_size);
         let lvl_1_norm: usize = self.vec_znx_big_normalize_tmp_bytes();
@@ -116,7 +117,10 @@ where
             ((cnv_offset / res_base2k).saturating_sub(1), (cnv_offset % res_base2k) as i64)
         };
 
-        let (mut res_big, scratch_1) = scratch.take_vec_znx_big(self, 1, res.size());
+        // same accumulator as the out-of-place form: all limbs of the product below the offset, so that the
+        // normalisation sees the carries of the limbs under the result window
+        let res_dft_size = res.size() + b.len() - cnv_offset_hi;
+        let (mut res_big, scratch_1) = scratch.take_vec_znx_big(self, 1, res_dft_size);
         for i in 0..cols {
             self.cnv_by_const_apply(cnv_offset_hi, &mut res_big, 0, res.data(), i, b, scratch_1);
             self.vec_znx_big_normalize(
